@@ -560,7 +560,17 @@ func ruleAppendFresh(r *core.Run, prop string) {
 				}
 			}
 		}
-		if p, ok := base.(*ssa.Parameter); ok && depth < 2 {
+		storesHere := false
+		for _, b := range f.Blocks {
+			for _, ins := range b.Instrs {
+				if st, ok := ins.(*ssa.Store); ok {
+					if fa, ok := st.Addr.(*ssa.FieldAddr); ok && fa.X == base && fieldNameT(fa.X.Type(), fa.Field) == "CreatedAt" {
+						storesHere = true
+					}
+				}
+			}
+		}
+		if p, ok := base.(*ssa.Parameter); ok && depth < 4 && !storesHere {
 			idx := -1
 			for i, q := range f.Params {
 				if q == p {
